@@ -28,6 +28,16 @@ func (s *state) resolveCallee(d ssa.CallInstruction, strict bool) (*ssa.Function
 		}
 		return f, u.eng.contractFor(f), nil
 	}
+	// a function-typed parameter of a function under contract: callback contract Outer@param
+	if p, ok := c.Value.(*ssa.Parameter); ok {
+		if pc := u.eng.contracts[p.Parent().Pkg.Pkg.Path()]; pc != nil {
+			if fc := pc.funcs[funcKey(p.Parent())+"@"+p.Name()]; fc != nil {
+				if _, known := s.vals[p]; !known || !s.isKnownFunc(s.vals[p]) {
+					return nil, fc, nil
+				}
+			}
+		}
+	}
 	// dynamic: function value
 	var fv Val
 	if x, ok := s.vals[c.Value]; ok {
@@ -620,4 +630,17 @@ func (s *state) appendOp(d *ssa.Call) Val {
 			fmt.Sprintf("(forall ((r!c Int)) (=> (not (= r!c %s)) (= (select %s r!c) (select %s r!c))))", ref, nw, old))
 	}
 	return Val{T: d.Type(), S: []string{ref, m.offConst(0), nl, ncap}}
+}
+
+func (s *state) isKnownFunc(v Val) bool {
+	if len(v.S) != 1 {
+		return false
+	}
+	if _, ok := s.u.closures[v.S[0]]; ok {
+		return true
+	}
+	if n, ok := litInt(v.S[0]); ok {
+		return s.u.eng.funcByID[int(n)] != nil
+	}
+	return false
 }
